@@ -45,20 +45,24 @@ Further forms (kernels outside the plain single-loop shape):
 
 * HELPER functions of the source are translated to definitions of the kernel's namespace tagged `@[gen_unfold]`; the tactic `tie`
   unfolds them (`simp only [gen_unfold]`: whichever helpers the source has at the moment, so extracting or inlining a helper does not
-  invalidate a proof script); only where a helper needs an induction of its own is it named (the conjuncts of `gen_eq_ClimateVariables`);
+  invalidate a proof script); no theorem names a regenerated helper (`gen_eq_ClimateVariables` unfolds them as well and treats the
+  bisection loop wherever it ends up);
 * values the source computes BEFORE the loop from the parameters alone are `let`s at the top of the regenerated `step`, and the theorem
   instantiates the hand model's coefficients with the hand model's own function of the parameters (`Muskingum.coef`,
   `BankErosion.meanAnnualBankErosion`, `Climate.barometricPressure`, …): hoisting an expression out of the loop or back in keeps it;
 * a HIDDEN state (carried between iterations, not returned: `prevVolume` of `instreamDissolvedNutrient`) is an extra
-  component of the state of `init` / `step`; a series element read before the loop (`reachVolume[0]`) is an extra argument;
+  component of the state of `init` / `step` — but a variable that every iteration assigns, at the top level of the loop body,
+  before reading it (and that nothing reads after the loop) carries nothing: it is a local of `step`, wherever it is declared;
+  a series element read before the loop (`reachVolume[0]`) is an extra argument;
 * DELEGATION: `if cond { x = Callee(…); return … }` before the loop, or a body that is one call of another kernel function:
   `delegates = cond`, `delegateInit`, `delegateStep` (one iteration of the callee, translated with the nil-pattern and the
   function arguments of the call, in terms of the caller's parameters and series), `delegateFinal` are proved equal to the
   branch of the hand model (`gen_eq_StorageDissolvedDecay`, `gen_eq_InstreamDissolvedNutrient`, `gen_eq_SednetGully`,
   `gen_eq_SednetGullyAlt`);
 * a helper with a bounded loop (`for i := 0; i < 40; i++ { …; if … { break } }` of `calcWetBulb`) is translated to
-  `boundedLoop body 40 carried` (defined at the top of the generated file) and proved equal to the hand model's recursion
-  by induction on the bound (`gen_eq_ClimateVariables_bisect`);
+  `boundedLoop body 40 carried` (defined at the top of the generated file; a loop that counts down, or leaves by `return E` in
+  front of a final `return E`, is the same term) and proved equal to the hand model's recursion by a simulation argument
+  (`boundedLoop_sim`: whatever else the loop carries, its first two components do what `Climate.bisect` does; `bisect_eq_boundedLoop`);
 * a function with an error result that works on whole series (`fn.Piecewise` in `ratingPartition`) is NOT translated: it
   is an argument of `step` (type `α → σ → σ → Option α`, `none` = error, on which the code panics), `step` returns an
   `Option` (`none` = the loop body panics) and the theorem instantiates the argument with the hand model of that function;
@@ -85,6 +89,9 @@ ties hold at `Float` (where the models are executed) and are modulo that literal
 `Float` when this file is compiled (`#guard`; a test, not a proof: `Float` literals are opaque to the kernel).
 -/
 namespace OW.Props.GenTie
+
+-- which rewrite rules fire depends on how the source is written at the moment
+set_option linter.unusedSimpArgs false
 open OW OW.Kernels OW.Gen.K
 
 /-! ### models/rr/coeff.go -/
@@ -496,79 +503,79 @@ theorem gen_eq_InstreamFineSediment_lumped {α} [Num α] (hz : LitZero α) (p : 
 theorem gen_eq_BaseflowFilter {α} [Num α] (x : α) :
     baseflowFilter.step x = () ∧ baseflowFilter.guard (α := α) = false := ⟨rfl, rfl⟩
 
-/-- the bisection of `calcWetBulb` (`boundedLoop body 40 …`, carried values in declaration order
-`rtb dx xmid psat wstar fmid`) is `Climate.bisect`, for any `body` that computes what the loop body says -/
-theorem gen_eq_ClimateVariables_bisect {α} [Num α] (pa h : α)
-    (body : α × α × α × α × α × α → (α × α × α × α × α × α) × Bool)
-    (hbody : ∀ rtb dx xmid psat wstar fmid, body (rtb, dx, xmid, psat, wstar, fmid) =
-      (let dx' := dx * 0.5
-       let xmid' := rtb + dx'
-       let psat' := Climate.vaporPressure xmid'
-       let wstar' := Climate.humidityRatio psat' pa
-       let fmid' := Climate.enthalpy xmid' wstar'
-       let rtb' := if 0 < h - fmid' then xmid' else rtb
-       ((rtb', dx', xmid', psat', wstar', fmid'), decide (Num.abs dx' < Climate.acc)))) :
-    ∀ n rtb dx xmid psat wstar fmid,
-      (boundedLoop body n (rtb, dx, xmid, psat, wstar, fmid)).1 = Climate.bisect (Climate.satEnthalpy pa) h n rtb dx := by
+/-- a loop with `break` on a larger state simulates the same loop on a projection of it -/
+theorem boundedLoop_sim {σ τ : Type} (body : σ → σ × Bool) (g : τ → τ × Bool) (π : σ → τ)
+    (hsim : ∀ c, (π (body c).1, (body c).2) = g (π c)) :
+    ∀ (n : Nat) (c : σ) (d : τ), π c = d → π (boundedLoop body n c) = boundedLoop g n d := by
+  intro n
+  induction n with
+  | zero => intro c d h; exact h
+  | succ n ih =>
+    intro c d h
+    subst h
+    unfold boundedLoop
+    have h1 := hsim c
+    have h2 : (g (π c)).2 = (body c).2 := by rw [← h1]
+    have h3 : (g (π c)).1 = π (body c).1 := by rw [← h1]
+    simp only [h2, h3]
+    split
+    · rfl
+    · exact ih _ _ rfl
+
+/-- one pass of the bisection of `calcWetBulb` on the pair (rtb, dx): the new pair, and whether the loop is left -/
+def bisectBody {α} [Num α] (f : α → α) (h : α) (c : α × α) : (α × α) × Bool :=
+  let dx := c.2 * 0.5
+  let xmid := c.1 + dx
+  let fmid := f xmid
+  let rtb := if 0 < h - fmid then xmid else c.1
+  ((rtb, dx), decide (Num.abs dx < Climate.acc))
+
+/-- `Climate.bisect` is that loop -/
+theorem bisect_eq_boundedLoop {α} [Num α] (f : α → α) (h : α) :
+    ∀ (n : Nat) (rtb dx : α), Climate.bisect f h n rtb dx = (boundedLoop (bisectBody f h) n (rtb, dx)).1 := by
   intro n
   induction n with
   | zero => intros; rfl
   | succ n ih =>
-    intro rtb dx xmid psat wstar fmid
-    unfold boundedLoop Climate.bisect
-    simp only [hbody, Climate.satEnthalpy]
-    split <;> rename_i hc
-    · simp only [decide_eq_true_eq] at hc
-      simp only [hc, ↓reduceIte]
-      try rfl
-    · simp only [decide_eq_true_eq] at hc
-      simp only [hc, ↓reduceIte]
-      exact ih _ _ _ _ _ _
+    intro rtb dx
+    unfold Climate.bisect boundedLoop bisectBody
+    dsimp only
+    by_cases hc : Num.abs (dx * 0.5) < (Climate.acc : α)
+    · simp only [hc, ↓reduceIte, decide_true]
+    · simp only [hc, ↓reduceIte, decide_false, Bool.false_eq_true]
+      exact ih _ _
 
-/-- `climateVariables`: the helpers `barometricPressure`, `calcVaporPressure`, `calcDewPoint`, `calcHumidityRatio`,
-`calcHumidityRatioActual`, `calcEnthalpy`, `calcWetBulb` (the 40-step bisection with `break`) translated from the source
-are the hand model's, and one iteration is `Climate.sample`. The source compares `(hEnthalpy - fmid) > 0.0`, the hand
-model `0 < h - fmid`: hypothesis `NatZero`. -/
-theorem gen_eq_ClimateVariables {α} [Num α] (h0 : NatZero α) (elevation _pa t rh x y z u : α) :
-    climateVariables.barometricPressure elevation = Climate.barometricPressure elevation ∧
-    climateVariables.calcVaporPressure t = Climate.vaporPressure t ∧
-    climateVariables.calcDewPoint t rh = Climate.dewPoint t rh ∧
-    climateVariables.calcHumidityRatio x y = Climate.humidityRatio x y ∧
-    climateVariables.calcHumidityRatioActual x y z = Climate.humidityRatioActual x y z ∧
-    climateVariables.calcEnthalpy x y = Climate.enthalpy x y ∧
-    climateVariables.calcWetBulb x y z u = Climate.wetBulb x y z u ∧
+/-- four outputs, the last being the first input minus the third output -/
+theorem out4_ext {α} [Num α] {a a' b b' c c' t : α} (ha : a = a') (hb : b = b') (hc : c = c') :
+    (a, b, c, t - c) = (a', b', c', t - c') := by rw [ha, hb, hc]
+
+/-- `climateVariables`: one iteration is `Climate.sample` (the Goff-Gratch vapour pressure, the dew point, the humidity ratio,
+the enthalpy and the 40-step bisection with `break`, however the source distributes them over helper functions: the helpers
+are unfolded, the bisection loop — whatever else it carries besides (rtb, dx), in that order, first — is shown to simulate
+`Climate.bisect`). The source compares `(hEnthalpy - fmid) > 0.0`, the hand model `0 < h - fmid`: hypothesis `NatZero`. -/
+theorem gen_eq_ClimateVariables {α} [Num α] (h0 : NatZero α) (elevation t rh : α) :
     climateVariables.guard elevation = false ∧
     climateVariables.step elevation t rh =
       (let r := Climate.sample (Climate.barometricPressure elevation) t rh; (r.vaporPressure, r.dewPoint, r.wetBulb, r.deltaT)) := by
   unfold NatZero at h0
-  have hvp : ∀ t : α, climateVariables.calcVaporPressure t = Climate.vaporPressure t := by
-    intro t
-    unfold climateVariables.calcVaporPressure Climate.vaporPressure
-    all_goals tie
-  have hdp : ∀ t rh : α, climateVariables.calcDewPoint t rh = Climate.dewPoint t rh := by
-    intro t rh
-    unfold climateVariables.calcDewPoint Climate.dewPoint
-    simp only [hvp]
-    all_goals tie
-  have hra : ∀ x y z : α, climateVariables.calcHumidityRatioActual x y z = Climate.humidityRatioActual x y z := by
-    intro x y z
-    unfold climateVariables.calcHumidityRatioActual Climate.humidityRatioActual
-    simp only [hvp]
-    rfl
-  have hwb : ∀ x y z u : α, climateVariables.calcWetBulb x y z u = Climate.wetBulb x y z u := by
-    intro x y z u
-    unfold climateVariables.calcWetBulb Climate.wetBulb
-    refine gen_eq_ClimateVariables_bisect u z _ (fun rtb dx xmid psat wstar fmid => ?_) 40 _ _ _ _ _ _
-    simp only [hvp, ← h0]
-    have he : ∀ a b : α, climateVariables.calcEnthalpy a b = Climate.enthalpy a b := fun _ _ => rfl
-    have hh : ∀ a b : α, climateVariables.calcHumidityRatio a b = Climate.humidityRatio a b := fun _ _ => rfl
-    simp only [he, hh, Climate.acc]
-    all_goals tie
-  refine ⟨rfl, hvp t, hdp t rh, rfl, hra x y z, rfl, hwb x y z u, rfl, ?_⟩
-  unfold climateVariables.step Climate.sample
-  simp only [hvp, hdp, hra, hwb]
-  rfl
-
+  refine ⟨rfl, ?_⟩
+  unfold climateVariables.step Climate.sample Climate.wetBulb
+  simp only [gen_unfold, bisect_eq_boundedLoop]
+  refine out4_ext ?_ ?_ ?_
+  · unfold Climate.vaporPressure
+    tie
+  · unfold Climate.dewPoint Climate.vaporPressure
+    tie
+  · first
+      | refine congrArg Prod.fst (boundedLoop_sim _ _ (fun (c : α × α) => c) ?_ 40 _ _ ?_)
+      | refine congrArg Prod.fst (boundedLoop_sim _ _ (fun (c : α × α × _) => (c.1, c.2.1)) ?_ 40 _ _ ?_)
+    · intro c
+      unfold bisectBody Climate.satEnthalpy Climate.enthalpy Climate.humidityRatioActual Climate.humidityRatio
+        Climate.barometricPressure Climate.vaporPressure Climate.acc
+      simp only [← h0]
+      tie
+    · unfold Climate.dewPoint Climate.vaporPressure
+      tie
 /-! ### the literal identities at `Float` (evaluated, not proved) -/
 
 /-- the literal hypotheses of this file as Boolean tests with Go's `==` -/
